@@ -102,9 +102,19 @@ def parseHostHeader (base host : Bytes) : Option VirtualHost :=
 def singleNew (base : Bytes) : Except DomainError Bytes :=
   if !isValidDomain base then .error .invalidDomain else .ok base
 
-/-- the common tail of both `S3Host::parse_host_header` impls; `none` = `InvalidRequest` -/
+/-- `bucket_of_host`: the name part of a `Host` value `uri-host [":" port]` — what stands before
+    the first `:` (`split_once(':').map_or(host, |(name, _port)| name)`), or the whole value when
+    there is no `:` — in lower case -/
+def bucketOfHost (host : Bytes) : Bytes :=
+  toAsciiLower (match splitOnce colon host with
+    | some (name, _) => name
+    | none => host)
+
+/-- the common tail of both `S3Host::parse_host_header` impls; `none` = `InvalidRequest`: a valid
+    host outside the base domains names the bucket `bucket_of_host(host)` (the port is no part of it;
+    the `domain` field keeps the whole value) -/
 def fallback (host : Bytes) : Option VirtualHost :=
-  if isValidDomain host then some ⟨host, some (toAsciiLower host)⟩ else none
+  if isValidDomain host then some ⟨host, some (bucketOfHost host)⟩ else none
 
 /-- `<SingleDomain as S3Host>::parse_host_header`; `none` = `Err(InvalidRequest)` -/
 def singleParse (base host : Bytes) : Option VirtualHost :=
